@@ -99,3 +99,20 @@ def winding_table(ctx, body, R, key, scrut_pred, count_pred):
         want = '(count & 1) != 0' if v == 'EvenOdd' else 'count != 0'
         ctx.check(ok, R, key + '|winding arm ' + v, body.loc(), '%s -> %s' % (v, want), 'the %s arm computes %s, expected %s' % (v, shown or 'nothing', want))
     return an.cfg.ipdom(m.bb)
+
+
+def origin_def(an, rv, bb, idx):
+    """follow `x = copy y` chains from an rvalue back to the definition that computed the value"""
+    seen = 0
+    while rv['k'] == 'use' and rv['o']['k'] in ('copy', 'move') and not rv['o']['p']['pr'] and seen < 20:
+        seen += 1
+        ds = an.reaching(rv['o']['p']['l'], bb, idx)
+        if len(ds) != 1 or ds[0].kind != 'assign' or ds[0].partial:
+            return ds[0] if len(ds) == 1 else None
+        d = ds[0]
+        nrv = d.node['rv']
+        if nrv['k'] == 'use' and nrv['o']['k'] in ('copy', 'move') and not nrv['o']['p']['pr']:
+            rv, bb, idx = nrv, d.bb, d.idx
+            continue
+        return d
+    return None
